@@ -3,7 +3,6 @@ package main
 // G-OCI: initial OCI runtime specs, and harness-created host device nodes.
 
 import (
-	"encoding/json"
 	"fmt"
 	"math/rand"
 	"os"
@@ -72,11 +71,56 @@ func cloneOCI(s *oci.Spec) *oci.Spec {
 	if s == nil {
 		return nil
 	}
-	b, err := json.Marshal(s)
-	must(err)
-	var out oci.Spec
-	must(json.Unmarshal(b, &out))
-	return &out
+	// (a deep copy of the Go value, not a JSON round trip: strings keep their bytes,
+	// empty lists stay empty lists)
+	return deepCopy(reflect.ValueOf(s)).Interface().(*oci.Spec)
+}
+
+func deepCopy(v reflect.Value) reflect.Value {
+	switch v.Kind() {
+	case reflect.Ptr:
+		if v.IsNil() {
+			return v
+		}
+		out := reflect.New(v.Type().Elem())
+		out.Elem().Set(deepCopy(v.Elem()))
+		return out
+	case reflect.Interface:
+		if v.IsNil() {
+			return v
+		}
+		out := reflect.New(v.Type()).Elem()
+		out.Set(deepCopy(v.Elem()))
+		return out
+	case reflect.Struct:
+		out := reflect.New(v.Type()).Elem()
+		out.Set(v)
+		for i := 0; i < v.NumField(); i++ {
+			if out.Field(i).CanSet() {
+				out.Field(i).Set(deepCopy(v.Field(i)))
+			}
+		}
+		return out
+	case reflect.Slice:
+		if v.IsNil() {
+			return v
+		}
+		out := reflect.MakeSlice(v.Type(), v.Len(), v.Len())
+		for i := 0; i < v.Len(); i++ {
+			out.Index(i).Set(deepCopy(v.Index(i)))
+		}
+		return out
+	case reflect.Map:
+		if v.IsNil() {
+			return v
+		}
+		out := reflect.MakeMapWithSize(v.Type(), v.Len())
+		for _, k := range v.MapKeys() {
+			out.SetMapIndex(deepCopy(k), deepCopy(v.MapIndex(k)))
+		}
+		return out
+	}
+	return v
 }
 
 var ociEnvNames = []string{"PATH", "HOME", "TERM", "LANG", "FOO"}
@@ -99,6 +143,15 @@ func genOCI(r *rand.Rand) *oci.Spec {
 		p := &oci.Process{Cwd: "/", Args: []string{"sh"}}
 		for _, i := range r.Perm(len(ociEnvNames))[:r.Intn(len(ociEnvNames)+1)] {
 			p.Env = append(p.Env, fmt.Sprintf("%s=old%d", ociEnvNames[i], i))
+		}
+		if chance(r, 12) {
+			// strings are bytes: what the runtime put there is not the library's to normalise
+			p.Args = append(p.Args, "--name=caf\xe9", "\xff\xfe")
+			s.Hostname = "host\x80"
+			if s.Annotations == nil {
+				s.Annotations = map[string]string{}
+			}
+			s.Annotations["bytes"] = "a\xc3(b"
 		}
 		p.User.UID = uint32([]int{0, 0, 1000, 65534}[r.Intn(4)])
 		p.User.GID = uint32([]int{0, 0, 1000, 100}[r.Intn(4)])
